@@ -83,9 +83,24 @@ _MODES = ["mixed", "mixed", "mixed", "grid-only", "free-only"]
 
 @st.composite
 def _targets(draw, max_size=60):
-    """Target recipes [kind, i, u] (see _resolve) + a case-level mode: all targets on the grid / none on purpose / mixed."""
-    n = draw(st.one_of(st.integers(1, 6), st.integers(1, max_size)))
-    return [draw(st.sampled_from(_MODES)), draw(st.lists(_target, min_size=n, max_size=n))]
+    """[mode, items]: a case-level mode (all targets on the grid / none on purpose / mixed) and target recipes [kind, i, u]
+    (see _resolve); up to 6 recipes are drawn one by one (shrinkable), longer sets are {"n", "seed"} expanded by _expand."""
+    mode = draw(st.sampled_from(_MODES))
+    if draw(st.booleans()):
+        n = draw(st.integers(1, 6))
+        return [mode, draw(st.lists(_target, min_size=n, max_size=n))]
+    return [mode, {"n": draw(st.integers(7, max_size)), "seed": draw(st.integers(0, 2 ** 31 - 1))}]
+
+
+def _expand(items):
+    if not isinstance(items, dict):
+        return items
+    rs = np.random.RandomState(items["seed"])
+    n = int(items["n"])
+    kinds = rs.randint(0, len(_TARGET_KINDS), n)
+    idx = rs.randint(0, 2001, n)
+    u = rs.uniform(size=n)
+    return [[_TARGET_KINDS[int(kinds[j])], int(idx[j]), float(u[j])] for j in range(n)]
 
 
 def _bands():
@@ -228,6 +243,7 @@ def _resolve(tspec, fpos):
     grid: fpos[i % nf]; near: 1-3 ulp or 1000 eps beside it; in: log-interpolated at u between the ends;
     below / above: a factor 1.0001 * 1000^u beyond the lowest / highest frequency."""
     mode, items = tspec
+    items = _expand(items)
     nf = len(fpos)
     lo, hi = float(fpos[0]), float(fpos[-1])
     out = []
@@ -459,7 +475,7 @@ def weights(case, ctx):
             i = int(hit[0])
             expect = LD(1) / colsum[j]
             ctx.close(mat[i, j], expect, REL * float(expect) + w_tol[i, j], "entry at f == fc (column %d)" % j)
-            ctx.check(bool(np.all(mat[:, j] <= mat[i, j] * (1 + 4 * EPS))), "column %d: an entry exceeds the weight at f == fc" % j)
+            ctx.check(bool(np.all(mat[:, j] <= mat[i, j] * (1 + 16 * EPS))), "column %d: an entry exceeds the weight at f == fc" % j)
     # positional / default band
     mat2 = ctx.lib(fq.calc_smoothing_matrix_konno_1998, s.freqs, targets, b)
     check_matrix(mat2, "smoothing matrix (positional band)")
@@ -540,8 +556,12 @@ def consequences(case, ctx):
     ctx.close(got, np.full(m, c), 2 * REL * c, "constant spectrum not reproduced")
     # (3) homogeneity
     k = case["k2"]
+    a1 = np.abs(spec)
+    s1 = np.asarray(ctx.lib(f, freqs, a1, targets, band=b))
+    got = np.asarray(ctx.lib(f, freqs, a1 * 2.0 ** k, targets, band=b))
+    ctx.equal(got, s1 * 2.0 ** k, "scaling the (real, non-negative) spectrum by 2^%d" % k)  # products and sums scale exactly
     got = np.asarray(ctx.lib(f, freqs, spec * 2.0 ** k, targets, band=b))
-    ctx.equal(got, base * 2.0 ** k, "scaling the spectrum by 2^%d" % k)
+    ctx.close(got, base * 2.0 ** k, 4 * REL * base * 2.0 ** k, "scaling the spectrum by 2^%d" % k)
     al = case["alpha"]
     got = np.asarray(ctx.lib(f, freqs, spec * al, targets, band=b))
     ctx.close(got, abs(al) * base, 4 * REL * abs(al) * base, "scaling the spectrum by %r" % al)
@@ -549,11 +569,9 @@ def consequences(case, ctx):
     got = np.asarray(ctx.lib(f, freqs, spec * rot, targets, band=b))
     ctx.close(got, base, 4 * REL * base, "rotating the phase of the spectrum")
     # (4) linear in |A|: additivity and monotonicity for non-negative spectra
-    a1 = np.abs(spec)
     a2 = np.abs(rs.standard_normal(len(freqs))) * (hi if hi > 0 else 1.0) * 10.0 ** rs.randint(-2, 3)
     if case["seed"] % 3 == 0:
         a2 = np.where(rs.uniform(size=len(freqs)) < 0.7, 0.0, a2)
-    s1 = np.asarray(ctx.lib(f, freqs, a1, targets, band=b))
     s2 = np.asarray(ctx.lib(f, freqs, a2, targets, band=b))
     s12 = np.asarray(ctx.lib(f, freqs, a1 + a2, targets, band=b))
     ctx.close(s12, s1 + s2, 4 * REL * (s1 + s2), "additivity in |A|")
@@ -581,6 +599,7 @@ def _bw_cases(draw):
         case["lo"] = draw(gen.log_uniform(1e-3, 10.0))
         case["hi"] = case["lo"] * draw(gen.log_uniform(1.5, 1e4))
         case["npts"] = draw(st.integers(2, 80))
+        case["how"] = draw(st.sampled_from(["by_range", "by_range", "deprecated"]))
     return case
 
 
@@ -599,7 +618,7 @@ def _limits(sm, freqs, lim):
 
 @clause(CLAUSES, "bandwidth", _bw_cases(), quick=500, thorough=3000,
         rule="AccSignal / Signal of a non-constant record (n 3..1024), smoothing frequencies = default 0.1-30 Hz, an ascending drawn "
-             "target set (on / beside / inside / outside the Fourier grid) or set_smooth_fa_frequecies_by_range; band via "
+             "target set (on / beside / inside / outside the Fourier grid) or set_smooth_fa_frequecies_by_range / the deprecated smooth_freq_points + smooth_freq_range setters; band via "
              "gen_smooth_fa_spectrum; ratio in {0.707 (default), 2^-k, 0.9, 0.999999, 0.01, U(0.001,0.999)}; get_sig_freq_range ratio in "
              "{15 (default), 2, 4, 1.000001, 100, 1000, logU(1.001,1000)}; non-trivial = >= 3 smoothing frequencies, unambiguous and "
              "the limits are not simply the two ends of the grid",
@@ -619,11 +638,17 @@ def bandwidth(case, ctx):
         targets = np.sort(_resolve(case["targets"], s.fpos))
         ctx.lib(setattr, asig, "smooth_fa_freqs", targets)
     elif mode == "range":
-        ctx.lib(asig.set_smooth_fa_frequecies_by_range, (case["lo"], case["hi"]), case["npts"])
+        if case.get("how", "by_range") == "deprecated":
+            ctx.cls("range-deprecated-setters")
+            ctx.lib(lambda: asig.smooth_fa_spectrum)  # cached at the default frequencies first: the setters must invalidate it
+            ctx.lib(setattr, asig, "smooth_freq_points", case["npts"])
+            ctx.lib(setattr, asig, "smooth_freq_range", (case["lo"], case["hi"]))
+        else:
+            ctx.lib(asig.set_smooth_fa_frequecies_by_range, (case["lo"], case["hi"]), case["npts"])
         fr = np.asarray(asig.smooth_fa_freqs, dtype=float)
         ctx.shape(fr, (case["npts"],), "smoothing frequencies set by range")
         ctx.check(abs(fr[0] - case["lo"]) <= 1e-11 * case["lo"] and abs(fr[-1] - case["hi"]) <= 1e-11 * case["hi"]
-                  and bool(np.all(np.diff(fr) > 0)), "set_smooth_fa_frequecies_by_range: not an ascending grid on [%r, %r]" % (case["lo"], case["hi"]))
+                  and bool(np.all(np.diff(fr) > 0)), "smoothing frequencies set by range: not an ascending grid on [%r, %r]" % (case["lo"], case["hi"]))
     b = case["b"]
     if b != 40:
         ctx.lib(asig.gen_smooth_fa_spectrum, band=b)
